@@ -48,6 +48,8 @@ pub enum AuthorisationMessage {
         Sender<Result<()>>,
     ),
     UserForRoom(Uid, Sender<Result<HashSet<Vec<u8>>>>),
+    #[cfg(feature = "verif")]
+    VerifGetRoom(Uid, Sender<Option<Room>>),
     // ValidatePeerNodesRequest(Uid, Vec<Vec<u8>>, Sender<Result<Vec<Vec<u8>>>>),
 }
 
@@ -402,6 +404,10 @@ impl AuthorisationService {
                 }
             }
 
+            #[cfg(feature = "verif")]
+            AuthorisationMessage::VerifGetRoom(room_id, reply) => {
+                let _ = reply.send(auth.rooms.get(&room_id).cloned());
+            }
             AuthorisationMessage::UserForRoom(room_id, reply) => {
                 let _ = reply.send(auth.user_for_room(room_id));
             } // AuthorisationMessage::ValidatePeerNodesRequest(room_id, keys, reply) => {
